@@ -1,4 +1,5 @@
 import Hertz.Proofs.Http1
+import Hertz.Proofs.ReqRoundtrip
 /-!
 # C01 — the server frames and orders pipelined requests exactly as the wire says
 
@@ -16,10 +17,36 @@ Proved here, for all configurations, all inbound byte streams and both stream en
   response, nothing follows a closing response, an interim `100 Continue` only precedes a request's
   body.
 
-TODO-OPEN (decided per explored case by the spec step, `Driver/H1Spec.lean:c01`, which compares what
-the implementation's handler saw with the independent strict decoder `Spec/Http.lean`):
-* `serve_roundtrip`: for every list `rs` of well-formed requests,
-  `(serve cfg .eof (encodeAll rs))` sees exactly `rs` — needs the round-trip proof of the scanner.
+Proved for every stream that is the encoding of well-formed requests (`Proofs/ReqRoundtrip.lean`):
+* `head_roundtrip`, `body_roundtrip`, `request_roundtrip`, `serve_roundtrip` (+ `serve_roundtrip_all`,
+  `serve_own_bytes`, `seen_fields`): for every list of well-formed wire requests `rs : List WReq` (predicate
+  `wfReq`: token method, target without SP/CTL, token field names, OWS-trimmed field values without CR/LF/CTL,
+  framing fields as the strict decoder demands — none / equal `Content-Length` fields < 2^63 / exactly one
+  `Transfer-Encoding: chunked` —, chunks with size lines of ≤ 15 hex digits, every `Trailer` field a clean
+  declaration `n1, n2, …` of allowed names, and the trailer section of a chunked request = well-formed fields
+  whose names are, in order, the declared names (possibly none)), every configuration whose limits the requests respect (`withinLimits`: `MaxRequestBodySize`,
+  multipart pre-parse not triggered), both stream ends and any bytes after a request: the head is parsed to
+  exactly the request's method, target and fields (`expectedHead`), consuming exactly the head; the body reader
+  returns exactly the body and leaves exactly what follows; and the handler is handed exactly the requests to be
+  served (up to and including the first `Connection: close`), in order, with their own method, target, fields,
+  body and trailers (`seen_trailers`; trailer names starting with the byte `0` included — the case repaired by
+  `/repo` 0060100).  Fields may repeat, come in any order and any letter case; encoding is the canonical
+  `name ": " value CRLF`.
+* `spec_decodes_encoding`, `serve_refines_spec`: the independent strict decoder `Spec.Http.decodeAll` reads
+  `encAll rs` back as exactly `rs` (so `wfReq`/`encAll` describe streams of the specification's language, and the
+  encoder is a right inverse of the specification), and what the handler is handed agrees with what the strict
+  decoder assigns to each request.
+
+TODO-OPEN (still decided per explored case by the spec step, `Driver/H1Spec.lean:c01`, which compares what the
+implementation's handler saw with the independent strict decoder `Spec/Http.lean`):
+* `serve_roundtrip` for the part of the strict decoder's language outside `wfReq`:
+  - trailer sections whose names are not exactly the declared names in declaration order (undeclared trailer
+    fields are dropped by the server, missing ones are reported empty, `updateTrailer` fills by name), and `Trailer`
+    declarations in another spelling than `n1, n2` (no blank after the comma, empty elements, a trailing comma) or
+    naming a forbidden field (answered 400 when it is the last element);
+  - other spellings of a field line that the strict decoder accepts: no or several blanks / HTAB after the colon,
+    blanks before CRLF, obs-fold continuation lines (the scanner lemma `scanNext_field` covers `": "` only);
+  - HTTP/1.0 request lines (the strict decoder refuses them anyway), empty lines in front of a request.
 -/
 namespace Hertz.Props.C01
 open Hertz Hertz.H1
@@ -39,5 +66,157 @@ example : ciEq [99, 79, 78, 116, 101, 110, 116, 45, 76, 101, 110, 103, 116, 72] 
 
 theorem one_response_per_request_in_order (cfg : Cfg) (e : End) (s : Bytes) :
     cleanTrace (serve cfg e s) = true := serve_clean cfg e s
+
+/-! ### round trip: what is written on the wire is what the handler gets (`Proofs/ReqRoundtrip.lean`)
+
+`WReq` is a request as written on the wire (method, target, field list incl. the framing fields, body as
+sent: nothing / `Content-Length` bytes / chunks with their size lines and the zero size line).
+`wfReq` is the explicit well-formedness predicate (the conditions of the strict decoder `Spec.Http.decodeOne`
+plus: field values OWS-trimmed, `Trailer` fields clean declarations of allowed names, the trailer section's names
+= the declared names in order, chunk size lines of at most 15 hex digits, `Content-Length` below 2^63; it takes the
+server's `DisableNormalizing` flag because that decides which spelling of a trailer name matches a declared one).  `encHeadOf`/`encBody`/`encReq`/`encAll` are the encoders. -/
+
+open Hertz.H1.RT
+
+/-- `POST /a?b HTTP/1.1`, `Host: h`, `content-LENGTH: 3`, `X-y: a b`, body `abc` -/
+def exFixed : WReq :=
+  { method := [80, 79, 83, 84], target := [47, 97, 63, 98],
+    fields := [([72, 111, 115, 116], [104]), ([99, 111, 110, 116, 101, 110, 116, 45, 76, 69, 78, 71, 84, 72], [51]),
+               ([88, 45, 121], [97, 32, 98])],
+    body := .fixed [97, 98, 99] }
+
+/-- `POST / HTTP/1.1`, `transfer-encoding: Chunked`, chunks `3 abc`, `0A <10 bytes>`, last size line `0` -/
+def exChunked : WReq :=
+  { method := [80, 79, 83, 84], target := [47],
+    fields := [([116, 114, 97, 110, 115, 102, 101, 114, 45, 101, 110, 99, 111, 100, 105, 110, 103],
+                [67, 104, 117, 110, 107, 101, 100])],
+    body := .chunked [⟨[51], [97, 98, 99]⟩, ⟨[48, 65], [1, 2, 3, 4, 5, 6, 7, 8, 9, 10]⟩] [48] [] }
+
+/-- `POST /t HTTP/1.1`, `Trailer: 0a, x-sum`, `Transfer-Encoding: chunked`, chunk `3 abc`, last size line `0`,
+trailer section `0a: b:c`, `X-Sum: 9` (a trailer name that starts with the byte `0`) -/
+def exTrailers : WReq :=
+  { method := [80, 79, 83, 84], target := [47, 116],
+    fields := [([84, 114, 97, 105, 108, 101, 114], [48, 97, 44, 32, 120, 45, 115, 117, 109]),
+               ([84, 114, 97, 110, 115, 102, 101, 114, 45, 69, 110, 99, 111, 100, 105, 110, 103],
+                [99, 104, 117, 110, 107, 101, 100])],
+    body := .chunked [⟨[51], [97, 98, 99]⟩] [48] [([48, 97], [98, 58, 99]), ([88, 45, 83, 117, 109], [57])] }
+
+/-- `GET /x HTTP/1.1`, `Host: h`, `Connection: close` -/
+def exClose : WReq :=
+  { method := [71, 69, 84], target := [47, 120],
+    fields := [([72, 111, 115, 116], [104]), ([67, 111, 110, 110, 101, 99, 116, 105, 111, 110], [99, 108, 111, 115, 101])],
+    body := .none }
+
+/-- Stage 1. For every well-formed request and every continuation of the stream, `req.parse` returns the
+request's own method and target, the special fields (`Host`, `User-Agent`, `Content-Type`: last one of that
+name), the framing decision, the close flag, and the generic header list in wire order with names as normalised
+(all spelled out in `expectedHead`), and consumes exactly the bytes of the head. -/
+theorem head_roundtrip (dn : Bool) (r : WReq) (h : wfReq dn r = true) (rest : Bytes) :
+    parseReqHead dn (encHeadOf r ++ rest) = .ok (expectedHead dn r, (encHeadOf r).length) :=
+  parseReqHead_enc dn r h rest
+
+example : (∀ dn, wfReq dn exFixed = true ∧ wfReq dn exChunked = true ∧ wfReq dn exClose = true) := by decide
+set_option maxRecDepth 100000 in
+example : wfReq false exTrailers = true ∧ (expectedHead false exTrailers).trailer = [[48, 97], [88, 45, 83, 117, 109]] := by
+  decide +kernel
+example : (expectedHead false exFixed).h = [([88, 45, 89], [97, 32, 98])] ∧ (expectedHead false exFixed).cl = 3 := by decide +kernel
+
+/-- Stage 2. After the head, `ContinueReadBody` (fixed length, chunked, or no body) yields exactly the body
+and leaves exactly the bytes that follow the body's encoding, for either way the stream may end later. -/
+theorem body_roundtrip (cfg : Cfg) (e : End) (r : WReq) (h : wfReq cfg.disableNorm r = true)
+    (hlim : withinLimits cfg r = true) (rest : Bytes) :
+    continueReadBody cfg e (expectedHead cfg.disableNorm r) (encBody r.body ++ rest) =
+      .ok (expectedSeen cfg.disableNorm r).head (bodyOf r.body) (expectedSeen cfg.disableNorm r).trailers rest :=
+  continueReadBody_enc cfg e r h hlim rest
+
+example : wfReq false exChunked = true ∧ withinLimits {} exChunked = true ∧
+    bodyOf exChunked.body = [97, 98, 99, 1, 2, 3, 4, 5, 6, 7, 8, 9, 10] := by decide
+
+/-- Stage 3a. One turn of the keep-alive loop on an encoded request followed by anything: the handler gets
+exactly this request (preceded by `100 Continue` if it asked for it), 200 is written, and the loop goes on
+with exactly the bytes after the request unless the request (or the configuration) closes. -/
+theorem request_roundtrip (cfg : Cfg) (e : End) (r : WReq) (h : wfReq cfg.disableNorm r = true)
+    (hlim : withinLimits cfg r = true) (fuel : Nat) (first : Bool) (rest : Bytes) :
+    serveLoop cfg e (fuel + 1) first (encReq r ++ rest) =
+      (if mayContinue (expectedHead cfg.disableNorm r) then [Ev.continue100] else []) ++
+      [.req (expectedSeen cfg.disableNorm r), .resp 200 (cfg.disableKeepalive || closes r)] ++
+      (if (cfg.disableKeepalive || closes r) = true then [] else serveLoop cfg e fuel false rest) :=
+  serveLoop_step cfg e r h hlim fuel first rest
+
+/-- Stage 3b (`serve_roundtrip`). For every list of well-formed requests, every configuration whose limits
+they respect, and both stream ends: the requests handed to the handler are exactly the requests to be served
+(all up to and including the first that says `Connection: close`; the first only if keep-alive is disabled),
+in order, each as `expectedSeen` spells out. -/
+theorem serve_roundtrip (cfg : Cfg) (e : End) (rs : List WReq)
+    (hw : ∀ r ∈ rs, wfReq cfg.disableNorm r = true ∧ withinLimits cfg r = true) :
+    handled (serve cfg e (encAll rs)) = (served cfg.disableKeepalive rs).map (expectedSeen cfg.disableNorm) :=
+  serve_enc cfg e rs hw
+
+/-- … in particular, with keep-alive and no `Connection: close` except possibly on the last request, every
+request is handed over, in order. -/
+theorem serve_roundtrip_all (cfg : Cfg) (e : End) (rs : List WReq)
+    (hw : ∀ r ∈ rs, wfReq cfg.disableNorm r = true ∧ withinLimits cfg r = true) (hk : cfg.disableKeepalive = false)
+    (hc : ∀ r ∈ rs.dropLast, closes r = false) :
+    handled (serve cfg e (encAll rs)) = rs.map (expectedSeen cfg.disableNorm) := by
+  rw [serve_enc cfg e rs hw, hk, served_all rs hc]
+
+set_option maxRecDepth 100000 in
+example : (∀ r ∈ [exFixed, exTrailers, exChunked, exClose], wfReq false r = true ∧ withinLimits {} r = true) ∧
+    (∀ r ∈ [exFixed, exTrailers, exChunked, exClose].dropLast, closes r = false) := by decide +kernel
+
+/-- No byte of one request is delivered as part of another: method, target and body the handler sees are the
+request's own, request by request. -/
+theorem serve_own_bytes (cfg : Cfg) (e : End) (rs : List WReq)
+    (hw : ∀ r ∈ rs, wfReq cfg.disableNorm r = true ∧ withinLimits cfg r = true) :
+    (handled (serve cfg e (encAll rs))).map (fun s => (s.head.method, s.head.uri, s.body)) =
+      (served cfg.disableKeepalive rs).map (fun r => (r.method, r.target, bodyOf r.body)) := by
+  rw [serve_enc cfg e rs hw, List.map_map]
+  apply List.map_congr_left
+  intro r _
+  obtain ⟨h1, h2, h3⟩ := expectedSeen_own cfg.disableNorm r
+  simp [h1, h2, h3]
+
+/-- … and its own header fields (see `expectedSeen_fields` for the reading of `pick` / `generic`). -/
+theorem seen_fields (dn : Bool) (r : WReq) :
+    (expectedSeen dn r).head.host = pick .host r.fields [] ∧
+    (expectedSeen dn r).head.userAgent = pick .ua r.fields [] ∧
+    (expectedSeen dn r).head.contentType = pick .ct r.fields [] ∧
+    ((expectedSeen dn r).head.h = r.fields.filterMap (generic dn) ∨
+     (expectedSeen dn r).head.h = (r.fields.filterMap (generic dn)).filter (fun kv => kv.1 != Gen.Str.strTransferEncoding)) :=
+  expectedSeen_fields dn r
+
+/-- The trailers the handler is handed: for a chunked request the fields of its own trailer section, in order,
+names normalised, values untouched (this includes names that start with the byte `0`); for any other request the
+declared names with empty values. -/
+theorem seen_trailers (dn : Bool) (r : WReq) :
+    (expectedSeen dn r).trailers =
+      (match r.body with
+       | .chunked _ _ trs => trs.map (fun kv => (normalizeKey dn kv.1, kv.2))
+       | _ => (pickT dn r.fields []).map (fun k => (k, []))) := rfl
+
+set_option maxRecDepth 100000 in
+example : (expectedSeen false exTrailers).trailers = [([48, 97], [98, 58, 99]), ([88, 45, 83, 117, 109], [57])] := by
+  decide +kernel
+
+/-- The encoder of the theorems above is a right inverse of the independent strict decoder (`Spec/Http.lean`):
+a stream of encoded well-formed requests is in the specification's language and decodes to those requests. -/
+theorem spec_decodes_encoding (dn : Bool) (rs : List WReq) (hw : ∀ r ∈ rs, wfReq dn r = true) :
+    Spec.Http.decodeAll (encAll rs) = some (rs.map toSpec) :=
+  decodeAll_enc rs hw
+
+example : (toSpec exChunked).body = [97, 98, 99, 1, 2, 3, 4, 5, 6, 7, 8, 9, 10] ∧ (toSpec exChunked).fields = exChunked.fields := by
+  decide
+
+/-- Model refines specification on these streams: the strict decoder accepts the stream, and method, target and
+body of what the handler is handed are, request by request, what the strict decoder assigns (for the requests
+that are to be served). -/
+theorem serve_refines_spec (cfg : Cfg) (e : End) (rs : List WReq)
+    (hw : ∀ r ∈ rs, wfReq cfg.disableNorm r = true ∧ withinLimits cfg r = true) :
+    Spec.Http.decodeAll (encAll rs) = some (rs.map toSpec) ∧
+    (handled (serve cfg e (encAll rs))).map (fun s => (s.head.method, s.head.uri, s.body)) =
+      ((served cfg.disableKeepalive rs).map toSpec).map (fun q => (q.method, q.target, q.body)) := by
+  refine ⟨decodeAll_enc rs (fun r hr => (hw r hr).1), ?_⟩
+  rw [serve_own_bytes cfg e rs hw, List.map_map]
+  rfl
 
 end Hertz.Props.C01
